@@ -254,3 +254,20 @@ def ukf_level(h):
     out = np.array(out)
     h.out('UKF.update', out)
     h.check('shape (4,)', h.shape_is(out, (4,)))
+
+
+@harness('C03/FKF', functions=[FF + 'fkf:FKF._compute_all', FF + 'fkf:FKF.kalman_update', FF + 'fkf:FKF.measurement_quaternion_acc_mag'],
+         max_paths=16, bounds='N=2 samples; stratum: level, stationary, consistent samples; the gyroscope x-rate is the only symbol')
+def fkf(h):
+    """FKF over N = 2 samples on the level stationary stratum (symbolic x-rate): one attitude per sample, each of unit norm"""
+    h.definedness = 'assume'
+    gx = h.real('gx', -1.0, 1.0)
+    zero = 0.0 * gx
+    g = np.array([[0.0 + zero, 0.0, 0.0], [gx, 0.0, 0.0]], dtype=object if h.sym else float)
+    a = np.array([[0.0, 0.0, 1.0], [0.0, 0.0, 1.0]])
+    m = np.array([[0.6, 0.0, 0.8], [0.6, 0.0, 0.8]])
+    Q = np.array(flt.FKF(g.copy(), a.copy(), m.copy()).Q)
+    h.out('Q', Q)
+    h.check('one attitude per sample', h.shape_is(Q, (2, 4)))
+    h.check('Q[0] unit', h.is_unit(Q[0], tol=1e-9))
+    h.check('Q[1] unit', h.is_unit(Q[1], tol=1e-6))
